@@ -259,11 +259,17 @@ def _chunk(prop, seed, idxs, tier, budget_s):
     return out
 
 
-def fresh_digests(prop, seed, idxs, tier, hashseed="1", timeout=600):
-    """Re-run indices in a fresh interpreter with another hash seed."""
+def fresh_digests(prop, seed, idxs, tier, hashseed="1", timeout=600,
+                  optimize=False):
+    """Re-run indices in a fresh interpreter with another hash seed (and, for
+    engines that ask for it, with asserts compiled out: python -O)."""
     env = dict(os.environ)
     env["PYTHONHASHSEED"] = hashseed
     env["VERIF_HASHSEED"] = hashseed
+    if optimize:
+        env["PYTHONOPTIMIZE"] = "1"
+    else:
+        env.pop("PYTHONOPTIMIZE", None)
     env["VERIF_SEED"] = str(seed)
     cmd = [sys.executable, str(VERIF / "vcheck"), prop, "--digests",
            ",".join(str(i) for i in idxs), "--tier", tier]
@@ -393,7 +399,8 @@ def run_check(prop, tier, seed, nruns=None, workers=None, selfcheck=None):
         step = max(1, nruns // nself)
         sample = idxs[::step][:nself]
         try:
-            fd = fresh_digests(prop, seed, sample, tier)
+            fd = fresh_digests(prop, seed, sample, tier,
+                               optimize=getattr(eng, "FRESH_OPTIMIZE", False))
         except Exception as e:
             say(f"HARNESS-ERROR property={prop} determinism self-check: {e}")
             return 2
@@ -412,15 +419,23 @@ def run_check(prop, tier, seed, nruns=None, workers=None, selfcheck=None):
                 path.write_text(json.dumps({
                     "property": prop, "seed": seed, "run_index": i,
                     "tier": tier, "tree": None, "hashseed": "1",
+                    "optimize": "1" if getattr(eng, "FRESH_OPTIMIZE", False)
+                    else None,
                     "signature": fd[str(i)][2], "detail": fd[str(i)][3],
-                    "note": "passes under PYTHONHASHSEED=0, fails under "
-                            "PYTHONHASHSEED=1: behaviour depends on the hash "
-                            "seed"}, indent=1))
+                    "note": "passes in the main lane (PYTHONHASHSEED=0), "
+                            "fails in the fresh interpreter (PYTHONHASHSEED=1"
+                            + (", python -O" if getattr(eng, "FRESH_OPTIMIZE",
+                                                        False) else "")
+                            + "): behaviour depends on that interpreter "
+                            "configuration"}, indent=1))
                 ok, txt = confirm_fresh(path, fd[str(i)][2])
                 if ok:
                     say(f"VIOLATION property={prop} replay={path}")
-                    say(f"  signature={fd[str(i)][2]} (only under "
-                        f"PYTHONHASHSEED=1) detail={fd[str(i)][3][:400]}")
+                    say(f"  signature={fd[str(i)][2]} (only in the fresh "
+                        f"interpreter: PYTHONHASHSEED=1"
+                        + (", python -O" if getattr(eng, "FRESH_OPTIMIZE",
+                                                    False) else "")
+                        + f") detail={fd[str(i)][3][:400]}")
                     return 1
             say(f"HARNESS-ERROR property={prop} nondeterministic runs {mism[:8]}"
                 " (digest differs in a fresh interpreter with another hash seed)")
